@@ -9,7 +9,12 @@
 use crate::commands::TrackerCmd;
 use crate::constants::{PEER_ID_SIZE, PORT};
 use crate::{Metainfo, TrackerResp};
+#[cfg(not(rdest_verif))]
 use reqwest::Response;
+#[cfg(rdest_verif)]
+use crate::verif::http as reqwest;
+#[cfg(rdest_verif)]
+use crate::verif::http::Response;
 use tokio::sync::mpsc;
 use tokio::time;
 use tokio::time::Duration;
@@ -100,5 +105,13 @@ impl TrackerClient {
     fn create_url(metainfo: &Metainfo) -> String {
         let info_hash: String = form_urlencoded::byte_serialize(metainfo.info_hash()).collect();
         metainfo.tracker_url().clone() + "?info_hash=" + info_hash.as_str()
+    }
+}
+
+#[cfg(rdest_verif)]
+impl TrackerClient {
+    /// The announce URL before reqwest appends the query parameters.
+    pub fn verif_create_url(metainfo: &Metainfo) -> String {
+        Self::create_url(metainfo)
     }
 }
